@@ -1031,6 +1031,16 @@ theorem ask_reads_spec (pr : Proto) (l : Layout) (dflt t : Option Nat) (buf : By
       · rfl
       · split <;> rfl
 
+/-- **the stream stays framed**: whatever data message is at the head of the stream — expected or not, of the expected
+length or not — `ask` for a data packet consumes exactly header + announced length, whether it returns or raises; the
+following replies therefore start where the device started them -/
+theorem ask_keeps_framing (pr : Proto) (h : AptWF pr) (l : Layout) (id d s : Nat) (data rest : Bytes)
+    (ho : l.headerOnly = false) (h1 : id < 65536) (h2 : data.length < 65536) (h3 : d < 256) (h4 : s < 256) :
+    (ask pr l (dataHeader id data.length d s ++ data ++ rest)).2 = rest := by
+  rw [ask_data_message pr h l id d s data rest ho h1 h2 h3 h4]
+  split <;> rfl
+
+
 /-! ### obligations on the generated layouts -/
 
 /-- the protocol object for the generated constants -/
@@ -1295,6 +1305,36 @@ theorem k10_read_short (k : K10) (h : K10WF k) (mt : Layout) (p1 p2 d s : Nat) (
   have := unpack_pack _ _ hall []
   rw [List.append_nil] at this
   rw [this]
+
+/-- the same for the K10CR1 layer on well-formed messages: a message of the table is consumed whole (`k10_read_long`,
+`k10_read_short` give `rest` back); a malformed one empties the input (`discard_read`) -/
+theorem k10_read_error_discards (k : K10) (buf b : Bytes) (e : Exc) (h : k10Read k buf = (.error e, b)) (he : e = .instrument) :
+    b = [] := by
+  subst he
+  unfold k10Read at h
+  split at h
+  · simp at h
+  · split at h
+    · simp only [Prod.mk.injEq, Except.error.injEq] at h
+      -- `fromBuffer` raises ValueError only
+      rename_i e' hfb
+      unfold fromBuffer at hfb
+      split at hfb <;> simp at hfb
+      rw [← hfb] at h; simp at h
+    · simp only at h
+      split at h
+      · simp only [Prod.mk.injEq] at h; exact h.2.symm
+      · split at h
+        · simp only [Prod.mk.injEq] at h; exact h.2.symm
+        · split at h
+          · simp only [Prod.mk.injEq] at h; exact h.2.symm
+          · split at h
+            · rename_i e' hfb
+              unfold fromBuffer at hfb
+              split at hfb <;> simp at hfb
+              simp only [Prod.mk.injEq, Except.error.injEq] at h
+              rw [← hfb] at h; simp at h
+            · simp at h
 
 /-! ### `_wait_message` -/
 
